@@ -1335,4 +1335,9 @@ PROPS['C11'] = {
                     'direct calls of kbd_out.release_key in the start-up release window of start_processing_loop bypass the ignore filter (not modelled)'],
 }
 
-HOOK_COMMITS = []
+
+PROPS['C06'] = _lay_props(['KVerif.Props.C06'],
+    'one-shot keys: 4 end variants x T in {3,10,500} x rapid-event-delay {default 5, 0, 1} x inner action {modifier key, output chord, layer-while-held of a layer mapping the plain keys to marker keys}; lone one-shot key held for {0,1,T-1,T,T+1} ticks, alone and followed by two plain keys at every pair of gaps; exhaustive physically consistent schedules (<= N events) over one one-shot key and two plain keys with gaps {0,1,T-1,T,T+1} (all configurations for N <= 2, a seed-rotated subset for N = 3, 4, thorough: 5); 2-3 one-shot keys tapped in a row with every gap (and re-tapped) followed by two plain keys, exhaustive schedules over 2-3 one-shot keys and plain keys; random long histories with mixed variants and timeouts; 18 one-shot keys tapped / held in a row and at random (more than 16 stacked) and one key tapped 20 times; non-trivial = output changed at least twice; distinct = distinct case line. Oracle on the implementation trace: nothing down at the end of a balanced history; a plain key that is not the first key pressed after the last one-shot key press (press variants) / pressed after the release of a key pressed since then (release variants) comes out unmodified and on its base-layer code; the whole trace equals the run of Spec/OneShot.lean (modifier down from activation until max(1,delay) ticks after the first other press / the tick after the first release / the tick after a pcancel re-press / exactly T ticks after the last activation, held one-shot keys stay down as plain keys) wherever that specification is not silent (<= 16 active, <= 31 pending, uniform variant)',
+    'C06o',
+    assumptions=['OS output is taken as the key-code list of the layout per tick (the kanata diffing layer is modelled separately)',
+                 'ticks are delivered every millisecond: the idle-blocking of the kanata event loop (on the pinned commit is_idle treated oneshot.timeout == 0 as idle, which with rapid-event-delay 0 postponed the release of the one-shot key to the next input) is the subject of C07, not of this layout-level check'])
